@@ -173,3 +173,27 @@ Theorem C10_array_basic_remove :
     (o = AOk -> count a' = (length vals - cnt)%nat) /\ (o = AExn -> count a' = length vals).
 Proof. exact array_remove_basic. Qed.
 Print Assumptions C10_array_basic_remove.
+
+(* ---- later additions *)
+(* a HashSet merge that ran to completion left in the source only items whose key the unique-key destination holds *)
+Theorem C10_merge_finished_complete_hash :
+  forall c multi src dst w n,
+    s_stat (hrun c multi n (hinit src dst w)) = Finished ->
+    forall y, In y (src_items (hrun c multi n (hinit src dst w))) ->
+      multi = false /\ has_key (s_dst (hrun c multi n (hinit src dst w))) (key y) = true.
+Proof. exact hmerge_finished_complete. Qed.
+Print Assumptions C10_merge_finished_complete_hash.
+
+(* non-vacuity: with no failure scheduled the extracted function `hmerge` (fuel = items + buckets + 1) does finish *)
+Theorem C10_merge_without_failure_finishes_hash :
+  forall c multi src dst w, quiet w -> s_stat (hmerge c multi src dst w) = Finished.
+Proof. exact hmerge_quiet_finishes. Qed.
+Print Assumptions C10_merge_without_failure_finishes_hash.
+
+(* pvMergeToLinear relies on both trees being sorted: for strictly key-sorted source and destination a unique-key
+   destination stays free of duplicate keys at every step, for every schedule and tree shape *)
+Theorem C10_merge_unique_nodup_linear :
+  forall c src dst w shape n, ksorted src -> ksorted dst ->
+    NoDup (map key (ldst_items (lrun c false n (linit src dst w shape)))).
+Proof. exact lmerge_unique_nodup. Qed.
+Print Assumptions C10_merge_unique_nodup_linear.
